@@ -135,6 +135,17 @@ class GenRun:
         self.obs = out
         return out
 
+    def race(self, goroutines, iters):
+        """Build the driver with the race detector and run the concurrent mode. Returns (exit, stdout, stderr)."""
+        exe = os.path.join(self.dir, "drv_race.exe")
+        p = run(["go", "build", "-race", "-o", exe, "./drv"], cwd=self.moddir, env=GOENV, timeout=3000)
+        if p.returncode != 0:
+            raise RuntimeError("race build failed: " + (p.stderr or "")[-2000:])
+        env = dict(os.environ)
+        env["GORACE"] = "halt_on_error=0 exitcode=66"
+        p = run([exe, self.scen_path, "race", str(goroutines), str(iters)], cwd=self.moddir, env=env, timeout=3000)
+        return p.returncode, p.stdout or "", p.stderr or ""
+
     # ---- Coq side
     def coq_check(self, ip_table=None, entry="VT", use_ctx=False, spec=True):
         """Writes Check.v next to Run.v and compiles both. Returns parsed results per struct index."""
